@@ -60,8 +60,8 @@ def handle_check(prop, tier, seed):
     # buffers of 1-3 KiB (the original-capacity classes of bytes_mut.rs start at 1 KiB; growth, reclaim and
     # copy paths with sizes far from the boundary cases above)
     for profile in (("release",) if tier == "quick" else ("debug", "release")):
-        ga = ["--random", "--seed", str(seed * 1000 + 7 + (profile == "debug")), "--nprog", "120" if tier == "quick" else "1500", "--steps", "30",
-              "--maxh", "5", "--maxlen", "1500", "--profile", emph]
+        ga = ["--random", "--seed", str(seed * 1000 + 7 + (profile == "debug")), "--nprog", "400" if tier == "quick" else "3000", "--steps", "30",
+              "--maxh", "5", "--maxlen", "1500", "--profile", "mixed" if emph == "mut" else emph]
         results.append(H.run_config("%s_%s_large" % (prop, profile), profile, ga))
     extra, rc2 = None, 0
     if prop == "C03":
